@@ -359,6 +359,23 @@ func reentrantTraverse(r rng, res *result, idx int64) {
 			bad("Range visits a value the key never held during the traversal", fmt.Sprintf("k%d=%s", k, fmtVal(v)))
 		}
 		seen[k] = true
+		if visits%97 == 5 {
+			// nested traversal from inside the visitor: nobody else is writing, so it must
+			// see exactly the current contents
+			inner := map[int]any{}
+			dup := false
+			t.rng(func(k2 int, v2 any) bool {
+				if _, d := inner[k2]; d {
+					dup = true
+				}
+				inner[k2] = v2
+				return true
+			})
+			if dup || !sameItems(inner, cur) {
+				bad("nested Range (from inside a visitor) does not see exactly the current contents", fmt.Sprintf("nested Range saw %d keys (dup=%v), container holds %d", len(inner), dup, len(cur)))
+			}
+			armBudget()
+		}
 		if r.chance(pMut) {
 			switch r.intn(7) {
 			case 0:
